@@ -10,7 +10,7 @@ def list_reductions(items):
     n = len(items)
     if n == 0:
         return
-    size = n // 2
+    size = max(1, n // 2)
     while size >= 1:
         for start in range(0, n, size):
             cand = items[:start] + items[start + size :]
@@ -25,7 +25,7 @@ def bytes_reductions(data: bytes, max_cands: int = 400):
     """Shorter byte strings: drop chunks (halves .. single octets)."""
     n = len(data)
     count = 0
-    size = n // 2
+    size = max(1, n // 2) if n else 0
     while size >= 1 and count < max_cands:
         for start in range(0, n, size):
             yield data[:start] + data[start + size :]
